@@ -6,7 +6,7 @@ the feature-subset builds of C17. Each stage observes real executions of the lib
 
 usage: stages.py <c01|c02|c16|c17> <quick|thorough> <out.json>
 """
-import json, os, re, subprocess, sys, shutil, time, itertools, hashlib
+import json, os, re, subprocess, sys, shutil, time, itertools, hashlib, collections, math
 
 ROOT = os.environ.get("VERIF_ROOT", "/verif")
 H = f"{ROOT}/harness"
@@ -452,6 +452,136 @@ def c02_stage(tier):
     return cov, viol, inc
 
 
+FUZZ_PROPS = ["C01", "C02", "C03", "C04", "C05", "C06", "C07", "C08", "C09", "C10", "C12", "C13", "C14", "C20"]
+
+
+def fuzz_stage(prop, secs, jobs=16):
+    """Coverage-guided workload: libFuzzer (harness/fuzz, target `omni`) chooses inputs under coverage
+    feedback from the library and the reference parser; the property's ordinary monitor judges each one
+    inside the fuzzing process, and every candidate it writes is re-judged here by the regular `checked`
+    and `release` binaries before it counts. Crashes of the fuzzing process itself (the instrumented
+    build needs more stack than the regular one) are only candidates too."""
+    import resource, glob
+    cov = {"tool": "libFuzzer (cargo-fuzz, sanitizer none, value profile, fork mode)", "property": prop, "seconds": secs, "jobs": jobs}
+    viol, inc = [], []
+    t0 = time.time()
+    rc, out = run(["cargo", "+nightly", "fuzz", "build", "-s", "none", "--target-dir", f"{BUILD}/fuzz", "omni"], timeout=1800)
+    binp = f"{BUILD}/fuzz/{TRIPLE}/release/omni"
+    if rc != 0 or not os.path.exists(binp):
+        inc.append("fuzz target did not build: " + out[-500:].replace("\n", " | "))
+        cov["status"] = "inconclusive"
+        return cov, viol, inc
+    cov["build_s"] = round(time.time() - t0, 1)
+    wd = f"{TMP}/fuzz-{prop}-{os.getpid()}"
+    shutil.rmtree(wd, ignore_errors=True)
+    for d in ("corpus", "seeds", "out"):
+        os.makedirs(f"{wd}/{d}")
+    rc1, o1 = run([SCV, "fuzz-seeds", f"{wd}/seeds", "1500", str(SEED)])
+    rc2, o2 = run([SCV, "fuzz-dict", f"{wd}/dict"])
+    if rc1 != 0 or rc2 != 0:
+        inc.append("fuzz seeds / dictionary could not be generated: " + (o1 + o2)[-300:])
+        shutil.rmtree(wd, ignore_errors=True)
+        return cov, viol, inc
+    cov["seed_inputs"] = len(os.listdir(f"{wd}/seeds"))
+    env = dict(ENV, SCV_FUZZ_PROP=prop, SCV_FUZZ_OUT=f"{wd}/out")
+    cmd = [binp, f"-fork={jobs}", f"-max_total_time={secs}", "-timeout=20", "-rss_limit_mb=4096", "-max_len=700", f"-dict={wd}/dict", "-use_value_profile=1",
+           "-ignore_crashes=1", "-ignore_timeouts=1", "-ignore_ooms=1", f"-seed={SEED}", f"-artifact_prefix={wd}/out/", f"{wd}/corpus", f"{wd}/seeds"]
+
+    def big_stack():
+        resource.setrlimit(resource.RLIMIT_STACK, (256 * 1024 * 1024, resource.RLIM_INFINITY))
+    try:
+        p = subprocess.run(cmd, cwd=wd, env=env, stdout=subprocess.PIPE, stderr=subprocess.STDOUT, timeout=secs * 4 + 600, text=True, errors="replace", preexec_fn=big_stack)
+        out, rc = p.stdout, p.returncode
+    except subprocess.TimeoutExpired as ex:
+        out, rc = (ex.stdout or b"").decode("utf-8", "replace") if isinstance(ex.stdout, bytes) else (ex.stdout or ""), 124
+    prog = re.findall(r"#(\d+): cov: (\d+) ft: (\d+) corp: (\d+) exec/s:? (\d+) oom/timeout/crash: (\d+)/(\d+)/(\d+)", out)
+    if prog:
+        last = prog[-1]
+        cov.update({"fuzzer_executions": int(last[0]), "coverage_edges": int(last[1]), "coverage_features": int(last[2]), "corpus_size": int(last[3]),
+                    "fuzzer_ooms": int(last[5]), "fuzzer_timeouts": int(last[6]), "fuzzer_crashes": int(last[7])})
+    tot = collections.Counter()
+    for f in glob.glob(f"{wd}/out/stats-*.json"):
+        try:
+            for k, v in json.load(open(f)).items():
+                tot[k] += v
+        except Exception:
+            pass
+    cov["inputs_decoded"] = tot["decoded"]
+    cov["cases_judged"] = {"pass": tot["pass"], "no_verdict": tot["skip"], "violation_candidates": tot["viol"]}
+    cov["library_calls"] = tot["calls"]
+    # candidates written by the in-process monitors
+    cand = f"{wd}/cand-all.jsonl"
+    with open(cand, "w") as w:
+        for f in sorted(glob.glob(f"{wd}/out/cand-*.jsonl")):
+            w.write(open(f).read())
+    arts = sorted(glob.glob(f"{wd}/out/crash-*") + glob.glob(f"{wd}/out/timeout-*") + glob.glob(f"{wd}/out/oom-*"))
+    cov["fuzzer_artifacts"] = len(arts)
+    seen = set()
+
+    def confirm(path, what):
+        n_conf = 0
+        for cfgname, b in (("checked", SCV), ("release", f"{BUILD}/main/release/scv")):
+            rc, o = run([b, "fuzz-confirm", prop, path], timeout=900)
+            lines = re.findall(r"^CONFIRMED (.*)$", o, re.M)
+            for l in lines:
+                try:
+                    j = json.loads(l)
+                except Exception:
+                    continue
+                n_conf += 1
+                if j["sig"] in seen:
+                    continue
+                seen.add(j["sig"])
+                j["seed"] = SEED
+                j["detail"] = f"[found by the coverage-guided stage, {what}] " + j["detail"]
+                viol.append(j)
+            if rc != 0 and not lines:
+                first = None
+                try:
+                    first = json.loads(open(path).readline())["case"]
+                except Exception:
+                    pass
+                if rc < 0 or rc in (134, 139):
+                    if prop == "C01" and first is not None:
+                        sig = f"C01|{first['evaluator']}|abort|fuzz"
+                        if sig not in seen:
+                            seen.add(sig)
+                            viol.append({"property": prop, "config": cfgname, "class": "abort", "sig": sig, "seed": SEED, "case": first,
+                                         "detail": f"[coverage-guided stage, {what}] the regular {cfgname} binary was killed (rc={rc}) while evaluating this case"})
+                    else:
+                        inc.append(f"re-judging a fuzz candidate killed the {cfgname} binary (rc={rc}); aborts are C01's")
+                elif rc == 124:
+                    if prop == "C02" and first is not None:
+                        sig = f"C02|{first['evaluator']}|cpu-timeout|fuzz"
+                        if sig not in seen:
+                            seen.add(sig)
+                            viol.append({"property": prop, "config": cfgname, "class": "cpu-timeout", "sig": sig, "seed": SEED, "case": first,
+                                         "detail": f"[coverage-guided stage, {what}] one call did not return within 900 s in the regular {cfgname} binary"})
+                    else:
+                        inc.append(f"re-judging a fuzz candidate timed out in the {cfgname} binary")
+                else:
+                    inc.append(f"fuzz-confirm failed (rc={rc}): " + o[-300:].replace("\n", " | "))
+        return n_conf
+    n_cand = sum(1 for _ in open(cand))
+    cov["candidates_written"] = n_cand
+    cov["candidates_confirmed"] = confirm(cand, "monitor inside the fuzzing process") if n_cand else 0
+    unconfirmed = 0
+    for a in arts[:24]:
+        rc, o = run([SCV, "fuzz-decode", prop, a])
+        one = f"{wd}/art.jsonl"
+        open(one, "w").write(o)
+        if o.strip():
+            if confirm(one, "input that ended a fuzzing process: " + os.path.basename(a).split("-")[0]) == 0:
+                unconfirmed += 1
+    cov["artifacts_not_reproduced_by_the_regular_binaries"] = unconfirmed
+    if tot["pass"] + tot["skip"] < 20000 or not prog:
+        inc.append(f"coverage-guided stage observed too little: {tot['pass'] + tot['skip']} cases judged, fuzzer output: " + out[-300:].replace("\n", " | "))
+    cov["wall_s"] = round(time.time() - t0, 1)
+    cov["status"] = "clean" if not viol and not inc else ("report" if viol else "inconclusive")
+    shutil.rmtree(wd, ignore_errors=True)
+    return cov, viol, inc
+
+
 def main():
     stage, tier, outp = sys.argv[1], sys.argv[2], sys.argv[3]
     os.makedirs(TMP, exist_ok=True)
@@ -478,6 +608,12 @@ def main():
         elif stage == "c02":
             c, viol, inc = c02_stage(tier)
             san.append(c)
+        elif stage.startswith("fuzz:"):
+            pass
+        prop = stage.split(":", 1)[1] if stage.startswith("fuzz:") else stage.upper()
+        if tier == "thorough" and prop in FUZZ_PROPS:
+            c, v, i = fuzz_stage(prop, int(os.environ.get("SCV_FUZZ_SECS", "75")))
+            extra_cov = dict(extra_cov, coverage_guided=c); viol += v; inc += i
     except Exception as ex:  # a stage that cannot run is inconclusive, never a verdict
         inc.append(f"stage {stage} failed to run: {ex!r}")
     cov = dict(extra_cov)
